@@ -112,7 +112,7 @@ Proof.
     unfold remaining, len in H. rewrite skipn_beyond by lia. now rewrite app_nil_r.
   - apply N.eqb_neq in Ez. pose proof (rd_count_le_rem s size).
     rewrite IH; [| assumption | unfold remaining in *; rewrite Hc, Hp; lia].
-    rewrite Hc, Hp, <- app_assoc. f_equal. rewrite Hb.
+    rewrite Hc, Hp, <- app_assoc. do 2 f_equal. rewrite Hb.
     rewrite <- (slice_to_end (content s) (pos s) (pos s + remaining s)) by (unfold remaining; lia).
     rewrite <- (slice_to_end (content s) (pos s + rd_count s size) (pos s + remaining s))
       by (unfold remaining; lia).
@@ -148,10 +148,10 @@ Proof.
     assert (remaining s = 0).
     { destruct (N.eq_dec (remaining s) 0); [assumption|].
       pose proof (rd_count_pos s (size l) Hs1). lia. }
-    rewrite slice_beyond by (unfold remaining in *; lia). reflexivity.
+    rewrite slice_beyond by (unfold remaining in *; lia). now rewrite app_nil_r.
   - apply N.eqb_neq in Ez.
     rewrite IH by (unfold remaining in *; rewrite Hc, Hp; lia).
-    rewrite Hc, Hp, Hn, Hl, <- app_assoc. f_equal. rewrite Hb.
+    rewrite Hc, Hp, Hn, <- app_assoc. do 2 f_equal. rewrite Hb.
     replace (pos s + rd_count s (size l) + (l - rd_count s (size l))) with (pos s + l) by lia.
     symmetry; apply slice_split; lia.
 Qed.
